@@ -4,7 +4,14 @@ pack_distribution, plan_autopack_combinations, _do_autopack).
 
 Model: lean/BreezyVerif/Model/C07.lean (literal transcription, IndexError /
 AssertionError explicit).  Theorems (Props/C07.lean) hold for ALL pack lists
-with positive counts and ALL totals >= their sum.
+with positive counts and ALL totals >= their sum; for the total the real
+caller passes (key_count() ADDS the per-pack counts, duplicated revisions
+counted once per pack: `keyCount`) the `autopack_real_*` /
+`autopack_execute_bound` theorems need no hypothesis on the total.
+`maxPackCount_eq_digit_sum` ties the bound to the decimal digits
+(`Nat.toDigits 10`), `execute_perm/_length/_cnt` describe
+`_execute_pack_operations` (one new pack per combination, `dups` duplicated
+revisions stored once).
 
 T2 (every run): the real methods are called on a RepositoryPackCollection made
 with __new__ (the planner methods use no instance state) with sortable stub
@@ -18,13 +25,43 @@ packs, and compared with the Lean model on
   * auto: the real _do_autopack on a stub collection with zero-revision packs,
   * real: a real 2a repository is grown by commits / fetches of k revisions;
     after every write group the real multiset of per-pack revision counts is
-    compared with what the model plans from the previous real state.
+    compared with what the model plans from the previous real state,
+  * realdup: real 2a / pack-0.92 repositories in which the SAME revisions are
+    present in several packs: writer A streams revisions 1..n and, when its
+    stream is exhausted but before it commits its write group, writer B
+    fetches 1..m and commits (a fixed script giving packs [18, 9, 2, 1] with
+    one duplicated revision, and random scripts).  Every writer's
+    `_do_autopack` is observed (wrappers on the instance that call the real
+    methods unchanged): the planner's real inputs (key_count(), len(_names),
+    per-pack counts in the real Pack order), its plan, the number of
+    duplicated revisions among the combined packs, whether the plan was carried
+    out; the model (`afterdup`) predicts plan and per-pack counts on disk
+    afterwards (the other writer's packs merged by _save_pack_names are passed
+    as `foreign`; the tie is skipped, the oracle not, when the other writer
+    autopacked underneath or the packer abandoned the plan).
 Oracle (independent of the model, digit sum recomputed here): no exception,
 plan == [] or one [n, ps] with len(ps) >= 2, ps a sub-multiset of the input,
 n == sum of ps; packs after a non-empty plan <= digit sum; plan == [] iff
 pack count <= bound; distribution sums to total with digit-sum many buckets;
 on the real repository: key_count() == sum of per-pack counts and
-pack count <= digit sum after every write group.
+pack count <= digit sum after every write group; with duplicated revisions:
+key_count() == sum of per-pack counts >= distinct revisions, no write group
+fails inside _do_autopack, all revisions stay readable, the real planner's
+result satisfies the plan predicate for its real inputs, a carried-out plan
+leaves <= digit sum(planned total) packs, a plan is abandoned only when one of
+the combined packs already holds all the combined revisions.
+
+Finding kept as a family (see the report / known_findings):
+`autopack-combination-byte-identical-to-listed-pack` — GCCHKPacker (2a): when
+every revision of the combined packs is also present in ONE of them the
+combination is written byte-identically to that listed pack, gets the same
+content-hash name, is renamed onto the live pack and allocate() raises
+BzrError "Pack ... already exists": the write group (and every later one)
+fails.  KnitPacker has a guard for this (24f6bb3: plan abandoned).
+Failures of a write group OUTSIDE _do_autopack (a writer's new pack
+byte-identical to one committed meanwhile) are counted
+(`realdup:write-group-failed-outside-autopack`, evidence key
+`realdup_failures_outside_autopack`), not reported: not this property.
 
 Mutants this was built against (scratch worktree; all caught).  "oracle" =
 VIOLATION with a concrete failing input, "T2" = the planner still satisfies
@@ -45,6 +82,9 @@ naming the first differing case.
   M9  zero-revision packs no longer skipped in _do_autopack           oracle
   M10 inner loop `if next_pack_rev_count >= 0` -> `> 0` (an exactly used
       bucket stays as a 0 bucket: empty combination planned)          oracle
+  M11 `_do_autopack` plans for the number of DISTINCT revisions instead of
+      key_count() (needs duplicated revisions; on a tree with the
+      GCCHKPacker guard)                                               oracle
 Harmless (stay clean): final loop replaced by sum()/comprehension, the while /
 pop(0) loop replaced by `for ... in sorted(..., reverse=True)`, digit sum by
 divmod.
@@ -59,20 +99,26 @@ THEOREMS = [
     "distribution_sum", "distribution_length", "plan_ok", "plan_shape", "plan_bound",
     "plan_idle", "plan_nonidle", "autopack_none_iff", "autopack_ok", "autopack_spec",
     "plan_error_witness",
+    "maxPackCount_eq_digit_sum", "autopack_real_ok", "autopack_real_spec",
+    "execute_perm", "execute_length", "execute_cnt", "autopack_execute_bound",
 ]
 RULE = ("plan: every multiset of positive counts with sum <= S (exhaustive) x {total = sum, a total > sum, "
         "10% a total < sum}, plus random large collections, arbitrary distributions, _do_autopack with "
-        "zero-revision packs and real-repository write groups; non-trivial = the planner gets past the "
+        "zero-revision packs, real-repository write groups, and write groups of two overlapping writers on real "
+        "repositories holding the same revisions in several packs; non-trivial = the planner gets past the "
         "'no more packs than buckets' shortcut (or, for mpc/dist, total >= 10)")
 ASSUMPTIONS = [
-    "total revision count passed to the planner >= sum of per-pack counts (checked on the real repository on "
-    "every run: key_count() == sum of get_revision_count(); CombinedGraphIndex.key_count() adds per-index counts)",
+    "total revision count passed to the planner == sum of per-pack counts (Lean `keyCount`; checked on real "
+    "repositories on every run, also with revisions duplicated across packs: key_count() == sum of "
+    "get_revision_count(); the compiled CombinedGraphIndex.key_count() adds per-index counts)",
     "Pack objects are totally ordered and distinct packs compare unequal (stub packs ordered by id; real packs "
     "are bzrformats Rust objects with __lt__)",
 ]
 TRUSTED = [
     "packs are modelled as (count, id) pairs; the effect of _execute_pack_operations is modelled as 'each "
-    "non-empty combination becomes one pack' (its real effect is observed in the real-repository part)",
+    "non-empty combination becomes one pack holding every revision once' (execute_perm; its real effect is "
+    "observed and compared in the real-repository parts); the number of duplicated revisions of a combination "
+    "is read from the real packs' revision indices",
 ]
 
 
@@ -423,6 +469,268 @@ def real_repo_part(ctx, b, steps, maxk):
     ctx.extra["real_repo_final"] = dict(revisions=pos, packs=before)
 
 
+
+# ---------------------------------------------------------------- real repository, revisions duplicated across packs
+FAMILY_IDENTICAL = "autopack-combination-byte-identical-to-listed-pack"
+DUP_REVS = 40
+FIXED_DUP_SCRIPT = [("fetch", 18), ("fetch", 27), ("overlap", 28, 29), ("fetch", 39), ("fetch", 40)]
+
+
+class _Watch:
+    """observes (never alters) one writer's `_do_autopack`: the planner's real
+    inputs, its result and whether `_execute_pack_operations` carried it out"""
+
+    def __init__(self, repo):
+        pc = repo._pack_collection
+        self.calls = []
+        orig_auto, orig_plan, orig_exec = pc._do_autopack, pc.plan_autopack_combinations, pc._execute_pack_operations
+
+        def auto():
+            packs = sorted(pc.all_packs())          # the real Pack order: ids for the model
+            rec = dict(total=pc.revision_index.combined_index.key_count(), names=len(pc._names),
+                       view=[(p.get_revision_count(), p.name) for p in packs], plan=None, dist=None,
+                       executed=None, dups=0, redundant=False, raised=None)
+            self.calls.append(rec)
+            try:
+                return orig_auto()
+            except Exception as e:  # noqa -- recorded, re-raised unchanged
+                rec["raised"] = type(e).__name__
+                raise
+
+        def plan(existing, dist):
+            rec = self.calls[-1]
+            rec["dist"] = list(dist)
+            rec["existing"] = [(c, p.name) for c, p in existing]
+            ops = orig_plan(existing, dist)
+            rec["plan"] = [[n, [(p.get_revision_count(), p.name) for p in ps]] for n, ps in ops]
+            keysets = [set(e[1] for e in p.revision_index.iter_all_entries()) for _, ps in ops for p in ps]
+            if keysets:
+                union = set().union(*keysets)
+                rec["dups"] = sum(map(len, keysets)) - len(union)
+                rec["redundant"] = any(ks == union for ks in keysets)
+            return ops
+
+        def execute(pack_operations, packer_class, reload_func=None):
+            r = orig_exec(pack_operations, packer_class=packer_class, reload_func=reload_func)
+            self.calls[-1]["executed"] = r is not None
+            return r
+
+        pc._do_autopack, pc.plan_autopack_combinations, pc._execute_pack_operations = auto, plan, execute
+
+
+def _disk_state(tgt_dir):
+    from breezy.repository import Repository
+    r = Repository.open(tgt_dir)
+    r.lock_read()
+    try:
+        pc = r._pack_collection
+        pc.ensure_loaded()
+        packs = {p.name: p.get_revision_count() for p in pc.all_packs()}
+        return dict(packs=packs, key_count=pc.revision_index.combined_index.key_count(),
+                    revisions=sorted(r.all_revision_ids()))
+    finally:
+        r.unlock()
+
+
+def _desc(counts):
+    return ",".join(map(str, sorted(counts, reverse=True))) or "-"
+
+
+def _dup_writer_done(ctx, b, fmt, who, upto, watch, disk_before, disk_after, exc, foreign_ok, expect_revs, script):
+    """oracle + T2 for ONE write group of one writer"""
+    rec = watch.calls[-1] if watch.calls else None
+    case = dict(kind="realdup", fmt=fmt, writer=who, upto=upto, script=[list(x) for x in script],
+                before=sorted(disk_before["packs"].values(), reverse=True),
+                view=[c for c, _ in rec["view"]] if rec else None,
+                total=rec["total"] if rec else None, dups=rec["dups"] if rec else 0,
+                plan=[[n, [c for c, _ in ps]] for n, ps in rec["plan"]] if rec and rec["plan"] is not None else None,
+                after=sorted(disk_after["packs"].values(), reverse=True) if disk_after else None)
+    if exc is not None and not (rec and rec["raised"]):
+        # the write group failed outside `_do_autopack` (e.g. this writer's new pack is byte-identical to
+        # a pack another writer committed meanwhile): not the autopack property
+        ctx.count("realdup:write-group-failed-outside-autopack:%s" % type(exc).__name__)
+        ctx.extra.setdefault("realdup_failures_outside_autopack", []).append(
+            dict(script=case["script"], writer=who, error="%s: %s" % (_exc(exc), str(exc).split(" in ")[0][:100])))
+        ctx.case(case, nontrivial=True)
+        return True
+    if exc is not None:
+        fam = None
+        if (rec and rec["plan"] and rec["redundant"] and type(exc).__name__ == "BzrError"
+                and "already exists" in str(exc)):
+            # the combined packs' revisions are all present in ONE of them and the packer wrote the
+            # combination byte-identically to that listed pack
+            fam = FAMILY_IDENTICAL
+        ctx.violation(case, "real %s repository with revisions duplicated across packs: writer %s's write group "
+                      "(revisions up to %d; packs on disk %s; planner view %s, plan %s) fails with %s: %s"
+                      % (fmt, who, upto, case["before"], case["view"], case["plan"], _exc(exc),
+                         str(exc).split(" in GCRepositoryPackCollection")[0][:120]),
+                      family=fam)
+        ctx.count("realdup:exception")
+        ctx.case(case, nontrivial=True)
+        return False
+    if disk_after["revisions"] != expect_revs:
+        ctx.violation(case, "real %s repository: after writer %s's write group %d revisions are readable, expected %d"
+                      % (fmt, who, len(disk_after["revisions"]), len(expect_revs)))
+    if disk_after["key_count"] != sum(disk_after["packs"].values()):
+        ctx.violation(case, "key_count() %d != sum of per-pack revision counts %d (duplicated revisions: %d distinct)"
+                      % (disk_after["key_count"], sum(disk_after["packs"].values()), len(disk_after["revisions"])))
+    if disk_after["key_count"] > len(disk_after["revisions"]):
+        ctx.count("realdup:duplicates-on-disk")
+    if rec is None:                       # nothing inserted: no autopack attempt
+        ctx.count("realdup:no-new-content")
+        ctx.case(case, nontrivial=False)
+        return True
+    view = rec["view"]
+    if rec["total"] != sum(c for c, _ in view):
+        ctx.violation(case, "planner input: key_count() %d != sum of the per-pack counts %r it is planned for"
+                      % (rec["total"], [c for c, _ in view]))
+    if rec["names"] != len(view):
+        ctx.violation(case, "len(_names) %d != %d packs" % (rec["names"], len(view)))
+    ids = {name: i + 1 for i, (_, name) in enumerate(view)}
+    bound = digit_sum(rec["total"])
+    if rec["plan"] is None:
+        out, ops = "None", None
+    else:
+        ops = [[n, [(c, StubPack(ids[name], c)) for c, name in ps]] for n, ps in rec["plan"]]
+        out = _show_ops(ops)
+    nz = [[c, ids[name]] for c, name in view if c > 0]
+    if len(nz) == len(view):
+        oracle_plan(ctx, case, nz, bound, out, ops, what="real _do_autopack (writer %s)" % who)
+    elif ops is not None and len(nz) > bound:
+        oracle_plan(ctx, case, nz, bound, out, ops, what="real _do_autopack (writer %s, non-empty packs)" % who)
+    abandoned = bool(rec["plan"]) and rec["executed"] is False
+    if abandoned:
+        # the packer refused to write a pack that would be byte-identical to a listed one
+        ctx.count("realdup:plan-abandoned")
+        if not rec["redundant"]:
+            ctx.violation(case, "writer %s: plan %s was made but not carried out although no combined pack holds all "
+                          "the combined revisions" % (who, out))
+    elif rec["plan"]:
+        ctx.count("realdup:combined" + (":with-duplicates" if rec["dups"] else ""))
+    else:
+        ctx.count("realdup:" + ("no-autopack" if rec["plan"] is None else "empty-plan"))
+    foreign = [c for name, c in disk_before["packs"].items() if name not in ids]
+    if rec["plan"] and not abandoned and foreign_ok:
+        n_after = len(disk_after["packs"]) - len(foreign)
+        if n_after > bound:
+            ctx.violation(case, "writer %s carried out %s: %d packs remain (besides %d added by the other writer), "
+                          "bound for the planned total %d is %d" % (who, out, n_after, len(foreign), rec["total"], bound))
+    ctx.case(case, nontrivial=bool(rec["plan"]) or rec["dups"] > 0 or disk_after["key_count"] > len(disk_after["revisions"]))
+    if foreign_ok and not abandoned:
+        b.add(case, "afterdup %d %d %s %s" % (rec["total"], rec["dups"], ",".join(str(c) for c, _ in view) or "-",
+                                             ",".join(map(str, foreign)) or "-"),
+              "%s %s" % (out, _desc(disk_after["packs"].values())))
+    else:
+        ctx.count("realdup:tie-skipped(%s)" % ("abandoned" if abandoned else "other-writer-autopacked"))
+    return True
+
+
+def _dup_scenario(ctx, b, fmt, script, tag):
+    """`fetch n`: one writer fetches revisions 1..n.  `overlap n m`: writer A streams 1..n; when its
+    stream is exhausted (before A commits its write group) writer B fetches 1..m and commits."""
+    from breezy.controldir import format_registry
+    from breezy.repository import Repository, InterRepository
+    src = env.make_tree(fmt)
+    path = src.basedir
+    with open(os.path.join(path, "f"), "w") as f:
+        f.write("x\n")
+    src.add(["f"], ids=[b"f-id"])
+    for i in range(1, DUP_REVS + 1):
+        with open(os.path.join(path, "f"), "a") as f:
+            f.write("l%d\n" % i)
+        src.commit("r%d" % i, rev_id=b"r%03d" % i, timestamp=1000000000.0 + i, timezone=0,
+                   committer="t <t@example.com>")
+    srcrepo = src.branch.repository
+    tgt_dir = env.fresh_dir("dup")
+    format_registry.make_controldir(fmt).initialize(tgt_dir).create_repository()
+    have = 0
+    for nstep, step in enumerate(script):
+        done = script[:nstep + 1]
+        ctx.count("realdup:%s:%s" % (tag, step[0]))
+        if step[0] == "fetch":
+            upto = step[1]
+            before = _disk_state(tgt_dir)
+            w = Repository.open(tgt_dir)
+            watch = _Watch(w)
+            exc = None
+            try:
+                w.fetch(srcrepo, revision_id=b"r%03d" % upto)
+            except Exception as e:  # noqa
+                exc = e
+            have_new = max(have, upto) if exc is None else have
+            after = _disk_state(tgt_dir)
+            ok = _dup_writer_done(ctx, b, fmt, "A", upto, watch, before, after, exc, True,
+                                  sorted(b"r%03d" % i for i in range(1, have_new + 1)), done)
+            have = have_new
+            if not ok:
+                return                 # every later write group makes the same plan
+            continue
+        _, a_upto, b_upto = step
+        a, bw = Repository.open(tgt_dir), Repository.open(tgt_dir)
+        wa, wb = _Watch(a), _Watch(bw)
+        before_a = _disk_state(tgt_dir)
+        mid = {}
+        exc_a = None
+        a.lock_write()
+        srcrepo.lock_read()
+        try:
+            search = InterRepository.get(srcrepo, a).search_missing_revision_ids(
+                revision_ids=[b"r%03d" % a_upto], find_ghosts=False)
+            stream = srcrepo._get_source(a._format).get_stream(search)
+
+            def interleaved():
+                yield from stream
+                mid["before"] = _disk_state(tgt_dir)
+                try:
+                    bw.fetch(srcrepo, revision_id=b"r%03d" % b_upto)
+                except Exception as e:  # noqa
+                    mid["exc"] = e
+                mid["after"] = _disk_state(tgt_dir)
+
+            try:
+                a._get_sink().insert_stream(interleaved(), srcrepo._format, [])
+            except Exception as e:  # noqa
+                exc_a = e
+        finally:
+            srcrepo.unlock()
+            a.unlock()
+        if "before" not in mid:       # A's stream failed before B ran
+            ctx.violation(dict(kind="realdup", fmt=fmt, writer="A", upto=a_upto, script=[list(x) for x in done]),
+                          "streaming fails with %s" % _exc(exc_a))
+            return
+        have_b = max(have, b_upto) if "exc" not in mid else have
+        ok = _dup_writer_done(ctx, b, fmt, "B", b_upto, wb, mid["before"], mid["after"], mid.get("exc"), True,
+                              sorted(b"r%03d" % i for i in range(1, have_b + 1)), done)
+        have = have_b
+        b_autopacked = bool(wb.calls and wb.calls[-1]["plan"])
+        after_a = _disk_state(tgt_dir)
+        have_a = max(have, a_upto) if exc_a is None else have
+        ok = _dup_writer_done(ctx, b, fmt, "A", a_upto, wa, mid["after"], after_a, exc_a, not b_autopacked,
+                              sorted(b"r%03d" % i for i in range(1, have_a + 1)), done) and ok
+        have = have_a
+        if not ok:
+            return                     # every later write group makes the same plan
+
+
+def _random_dup_script(rng, steps):
+    script, pos = [], 0
+    while pos < DUP_REVS - 3 and len(script) < steps:
+        pos = min(DUP_REVS - 3, pos + (rng.choice([8, 9, 10, 11]) if rng.random() < 0.15 else rng.randint(1, 3)))
+        if rng.random() < 0.6:
+            script.append(("overlap", pos, pos + rng.randint(0, 2)))
+        else:
+            script.append(("fetch", pos))
+    return script
+
+
+def real_dup_part(ctx, b):
+    """revisions duplicated across packs (two writers inserting overlapping revisions)"""
+    _dup_scenario(ctx, b, "2a", FIXED_DUP_SCRIPT, "fixed")
+    _dup_scenario(ctx, b, "pack-0.92", FIXED_DUP_SCRIPT, "fixed")
+    for fmt in ctx.pick(["2a"], ["2a", "pack-0.92", "2a"]):
+        _dup_scenario(ctx, b, fmt, _random_dup_script(ctx.rng, ctx.pick(14, 40)), "random")
+
+
 # ---------------------------------------------------------------- run
 FIXED = [
     # plan_error_witness: total < sum -> IndexError on the real method
@@ -535,6 +843,8 @@ def run(ctx, S=None):
     # --- real repository
     real_repo_part(ctx, b, ctx.pick(45, 140), ctx.pick(6, 12))
     b.flush()
+    real_dup_part(ctx, b)
+    b.flush()
 
 
 def widen(ctx):
@@ -557,6 +867,9 @@ def replay(ctx, case):
         line = "after %d %s" % (case["total"], ",".join(map(str, case["before"] + [case["added"]])))
         return dict(case=case, impl=",".join(map(str, case["after"])), model=ctx.model([line])[0],
                     note="real-repository step: recorded observation, re-run the check to reproduce")
-    _run_case(ctx, b, case)
+    if k == "realdup":
+        _dup_scenario(ctx, b, case["fmt"], [tuple(x) for x in case["script"]], "replay")
+    else:
+        _run_case(ctx, b, case)
     model = ctx.model(b.lines) if b.lines else []
     return dict(case=case, impl=b.outs, model=model, oracle_failures=[v["what"] for v in ctx.violations])
